@@ -37,7 +37,7 @@ pub fn part_for(prop: &str, tier: Tier, seed: u64) -> SeqPart {
     match prop {
         "C01" => SeqPart {
             name: "seq-reads",
-            bias: Bias { open_reader: 1, drain_reader: 1, get_range: 2, max_steps: 45, ..base },
+            bias: Bias { open_reader: 1, drain_reader: 1, get_range: 2, max_steps: 45, huge: 1, ..base },
             lenses: Lenses { reads: true, ..Default::default() },
             nontrivial: |e| {
                 (e.has("overwrite_diff") || e.has("shared_now") || e.has("same_reput") || e.has("rr_multi"))
@@ -58,7 +58,7 @@ pub fn part_for(prop: &str, tier: Tier, seed: u64) -> SeqPart {
         },
         "C07" => SeqPart {
             name: "seq-listing",
-            bias: Bias { keys: 4, big: 1, remove: 5, rr: 3, reopen: 1, max_steps: 45, ..base },
+            bias: Bias { keys: 4, big: 1, remove: 5, rr: 3, reopen: 1, max_steps: 45, huge: 1, ..base },
             lenses: Lenses { listing: true, discard_on_op_err: true, ..Default::default() },
             nontrivial: |e| e.has("rc_2_1_0") || e.has("rc_1_0_1") || e.has("same_reput"),
             quick_cases: 600,
@@ -76,7 +76,7 @@ pub fn part_for(prop: &str, tier: Tier, seed: u64) -> SeqPart {
         },
         "C13" => SeqPart {
             name: "seq-abort",
-            bias: Bias { begin: 7, write: 8, finish: 3, abort: 6, put: 5, reopen: 2, keys: 3, big: 4, max_steps: 40, slots: 2, ..base },
+            bias: Bias { begin: 7, write: 8, finish: 3, abort: 6, put: 5, reopen: 2, keys: 3, big: 4, max_steps: 40, slots: 2, huge: 1, ..base },
             lenses: Lenses { abort: true, ident_after_abort: true, ..Default::default() },
             nontrivial: |e| e.has("abort_nontrivial"),
             quick_cases: 300,
@@ -85,7 +85,7 @@ pub fn part_for(prop: &str, tier: Tier, seed: u64) -> SeqPart {
         },
         "C06" => SeqPart {
             name: "seq-cashash",
-            bias: Bias { open_reader: 4, drain_reader: 2, big: 8, keys: 4, remove: 4, rr: 2, max_steps: 35, ..base },
+            bias: Bias { open_reader: 4, drain_reader: 2, big: 8, keys: 4, remove: 4, rr: 2, max_steps: 35, huge: 2, ..base },
             lenses: Lenses { cashash: true, ..Default::default() },
             nontrivial: |e| e.has("drain_after_unlink") || (e.has("chunk_gt_8k") && e.has("overwrite_diff")),
             quick_cases: 250,
@@ -94,7 +94,7 @@ pub fn part_for(prop: &str, tier: Tier, seed: u64) -> SeqPart {
         },
         "C18" => SeqPart {
             name: "seq-ident",
-            bias: Bias { put: 12, begin: 4, write: 7, finish: 3, abort: 2, remove: 1, rr: 0, checkpoint: 0, get_range: 0, big: 5, max_steps: 25, ..base },
+            bias: Bias { put: 12, begin: 4, write: 7, finish: 3, abort: 2, remove: 1, rr: 0, checkpoint: 0, get_range: 0, big: 5, max_steps: 25, huge: 2, ..base },
             lenses: Lenses { ident: true, ..Default::default() },
             nontrivial: |e| e.has("multi_chunk") || e.has("empty_chunk"),
             quick_cases: 300,
